@@ -702,11 +702,12 @@ func GetFingerprint(q string) string {
 	return string(f[0:fi])
 }
 
-// blankComments returns q with every /* comment */ and every # comment (up to
-// the end of its line) overwritten by blanks. The text keeps its length, so
-// offsets into it are offsets into q. Nothing inside a 'quoted' or "quoted"
-// value is a comment, and /*! ... */ is MySQL-specific code, not a comment. An
-// unterminated comment extends to the end of q.
+// blankComments returns q with every /* comment */ and every # or -- comment
+// (up to the end of its line; -- must be followed by white space or the end of
+// q) overwritten by blanks. The text keeps its length, so offsets into it are
+// offsets into q. Nothing inside a 'quoted' or "quoted" value is a comment, and
+// /*! ... */ is MySQL-specific code, not a comment. An unterminated comment
+// extends to the end of q.
 func blankComments(q string) string {
 	b := []byte(q)
 	quote := byte(0)   // in a quoted value: its quote character
@@ -741,7 +742,7 @@ func blankComments(q string) string {
 			b[i] = ' '
 			comment = inMLC
 			body = i + 2
-		case c == '#':
+		case c == '#' || (c == '-' && strings.HasPrefix(q[i+1:], "-") && (i+2 == len(q) || isSpace(rune(q[i+2])))):
 			b[i] = ' '
 			comment = inOLC
 		}
